@@ -15,18 +15,30 @@ RULE = ('random inventories (<=4 hosts x <=3 services; names H,h,HS,S,"H S",P,..
         'filters are drawn from the recognised grammar host.name=="H" [&& service.name=="S"] [|| ...] and every shape at edit distance 1 '
         '(operands swapped, !=, host["name"], literal -> global constant/number/null/bool, wrong variable, wrong attribute, || false, || true, '
         '&& true, !!, in [..], match(), two host names under &&, host-only under to Service, mixed with vars/groups predicates); each load is '
-        'done as written and wrapped as (F) && true; API: GetFilterTargets with the same filters, plain and wrapped, with filter_vars. '
-        'non-trivial = at least one rule was put into the targeted index by the real AddRule, or an API query the real recogniser accepts; '
-        'distinct = distinct script text')
+        'done as written and wrapped as (F) && true; API: GetFilterTargets with the same filters, plain and wrapped, with filter_vars; '
+        'family frames: 2-4 rules on the same targets whose loop / use() variables are named like globals, like each other\'s variables '
+        'and like own attributes of the new object (host_name, name, service_name), read by the other rules\' for term, filter, ignore and '
+        'body (vars.b<i> = X, this.X, vars.b<j>), for over arrays and dictionaries (host vars, globals, literals), rules that throw; each such '
+        'configuration is loaded as written + wrapped and then again in EVERY file order of the rules (<= 24), alternating 1/4 commit worker '
+        'threads and the file order of the inventory, each load compared with the load in script order (names and attributes). '
+        'non-trivial = at least one rule was put into the targeted index by the real AddRule, or an API query the real recogniser accepts, or '
+        '(frames) two rules created objects on one target and every order was loaded; distinct = distinct script text')
 TRUSTED = ['model: coq/Apply/ArModel.v (transcription of applyrule-targeted.cpp, applyrule.cpp AddRule, *-apply.cpp EvaluateApplyRule(s), '
            'config_parser.yy assign/ignore combination, expression.cpp Variable/Indexer/Equal/NotEqual/LogicalAnd/Or/Negate/In, '
            'value-operators.cpp operator==, Value::ToBool, filterutility.cpp GetFilterTargets fast path)',
            'harness resets the object registry between loads by Unregister + clearing ConfigItem::m_Items/m_UnnamedItems and ApplyRule::m_Rules; '
            'objects are committed (registered), not activated',
-           'the index a rule got is read from ApplyRule::m_Rules (private, -fno-access-control) only to report the fast-path share; verdicts use the created objects']
+           'the index a rule got is read from ApplyRule::m_Rules (private, -fno-access-control) only to report the fast-path share; verdicts use the created objects',
+           'model of the frame: coq/Apply/ArFrame.v (frame.Locals as a mutable dictionary through EvaluateApplyRule/EvaluateApplyRules; one frame per '
+           'EvaluateApplyRule call) - its agreement with the code is what the frames family compares; the rule body sees locals, then the modelled own '
+           'fields of the new object (host_name, name, service_name, parent/child names, vars.b<i>), then globals; other attributes are not modelled and not generated',
+           'ar_order compares each permuted load with the script-order load textually in the harness (sorted canonical object lines) and prints the differing set; '
+           'the Gallina order oracle then compares the two parsed sets']
 ASSUMPTIONS = ['function calls in filters are opaque in the model; the generators use match() only, whose glob semantics is supplied by the glue',
                'Dictionary/object == compares pointers in the code and is modelled as "different"; generators do not compare dictionaries',
-               'parallel evaluation (WorkQueue, Concurrency=2) is exercised, not modelled']
+               'parallel evaluation (WorkQueue with 1, 2 and 4 threads) is exercised, not modelled',
+               'expressions of the model are pure (no assignment inside filters, no mutation of closure values or of the target from a rule body): '
+               'a use() dictionary mutated by a rule body is shared by reference between all instances in the code and outside the model']
 
 
 def hx(s):
@@ -402,6 +414,11 @@ def gen_frames_case(rnd):
 
         def atom():
             r = rnd.random()
+            if svc and r < 0.08:
+                # what an `apply Service` body assigned (vars.b0), read by a rule applied to that service
+                # (never against the global dictionary: == on dictionaries is pointer identity in the code, see ASSUMPTIONS)
+                x = var()
+                return 'eq(dot(dot(var(service),vars),b0),%s)' % (x if x != 'var(ArCM)' else 'var(ArCN)')
             if r < 0.18:
                 return 'eq(%s,%s)' % (HV % 'p', var())
             if r < 0.28:
@@ -450,7 +467,7 @@ def gen_frames_case(rnd):
                 elif r < 0.85 and body:
                     body.append('dot(var(vars),b%d)' % rnd.randrange(len(body)))
                 elif r < 0.93:
-                    body.append(HOSTN)
+                    body.append('dot(dot(var(service),vars),b0)' if svc and rnd.random() < 0.5 else HOSTN)
                 elif unsafe and rnd.random() < 0.25:
                     # a name nobody defines for THIS rule (another rule's variable): undefined, the load fails -
                     # unless it is an own field of the new object
@@ -462,7 +479,8 @@ def gen_frames_case(rnd):
         if body:
             l += ' body=' + ';'.join(body[:4])
         if kind == 2:
-            l += ' parent=%s' % hx(rnd.choice(hn))
+            # one parent for all Dependency rules of a case: no dependency cycles between hosts (their detection is not C16's)
+            l += ' parent=%s' % hx(hn[0])
         lines.append(l)
     lines.append('ar_load')
     lines.append('ar_order')
@@ -559,8 +577,26 @@ def extra_stats(cases, impl):
     rules = idx = failp = failw = okp = api = apifast = apierr = 0
     objs = 0
     kinds = {}
+    oloads = osame = fr_cases = fr_shared_target = fr_collide = 0
     for c in cases:
+        if c.get('tags', {}).get('family') == 'frames':
+            fr_cases += 1
+            if nontrivial(c, impl.get(c['id'], [])):
+                fr_shared_target += 1
+            # a name bound by one rule (loop / use variable) and read by another rule that does not bind it
+            binds, reads = [], []
+            for l in c['lines']:
+                if l.startswith('ar_rule'):
+                    b = set(re.findall(r' f[kv]=(\w+)', l)) | set(re.findall(r'[=,](\w+):', l.split(' use=')[1].split(' ')[0]) if ' use=' in l else [])
+                    binds.append(b)
+                    reads.append(set(re.findall(r'var\((\w+)\)', l)) - b)
+            if any(binds[i] & reads[j] for i in range(len(binds)) for j in range(len(binds)) if i != j):
+                fr_collide += 1
         for l in impl.get(c['id'], []):
+            if l.startswith('o-load'):
+                oloads += 1
+                if l.endswith(' same'):
+                    osame += 1
             if l.startswith('p-rule'):
                 rules += 1
                 if ' idx=H:' in l or ' idx=S:' in l:
@@ -586,4 +622,7 @@ def extra_stats(cases, impl):
             'plain_loads_ok': okp, 'plain_loads_failed': failp, 'wrapped_loads_failed': failw,
             'objects_created_plain': objs, 'objects_by_kind': kinds,
             'api_queries': api, 'api_queries_on_fast_path': apifast, 'fast_path_share_api': round(apifast / api, 3) if api else 0,
-            'api_queries_throwing': apierr}
+            'api_queries_throwing': apierr,
+            'frames_cases': fr_cases, 'frames_cases_two_rules_created_on_one_target': fr_shared_target,
+            'frames_cases_name_bound_by_one_rule_read_by_another': fr_collide,
+            'order_loads': oloads, 'order_loads_same_as_script_order': osame}
